@@ -54,6 +54,13 @@ AtomValue(a) == CASE a.k = "num" -> Num(a.v)
 AtomOpen(a) == a.k = "var" /\ Captures(a.n)
 AtomFaults(a) == a.k = "faultx"
 
+\* Reading a name that exists nowhere creates it, unset, in the current frame
+\* (getVariable).  Touch(fr, as) does that for every variable atom in as.
+Touch(fr, as) ==
+  LET missing == {as[i].n : i \in {j \in 1..Len(as) : as[j].k = "var"}} \ UNION {DOMAIN fr[i].vars : i \in 1..Len(fr)}
+  IN IF missing = {} THEN fr
+     ELSE [fr EXCEPT ![1].vars = [x \in (DOMAIN fr[1].vars) \cup missing |-> IF x \in missing THEN Unset ELSE fr[1].vars[x]]]
+
 \* frames after `name = v` (created in the current frame when it exists nowhere)
 Assigned(fr, name, v) ==
   LET S == {i \in 1..Len(fr) : name \in DOMAIN fr[i].vars}
@@ -85,16 +92,16 @@ Say(entry) == out' = Append(out, <<entry, Len(frames) - 1>>)
 
 -----------------------------------------------------------------------------
 (* The rule schedule for one input file holding one array of n elements.    *)
-RuleIdx(kind) == SelectSeq([i \in 1..Len(prog.rules) |-> i], LAMBDA i : prog.rules[i].kind = kind)
-Acts(kind, el) == [j \in 1..Len(RuleIdx(kind)) |-> [kind |-> kind, ri |-> RuleIdx(kind)[j], el |-> el]]
-Schedule ==
-  Acts("B", 0) \o Acts("BF", 0)
-  \o FlattenSeq([e \in 1..prog.n |-> Acts("P", e)])
-  \o Acts("EF", 0) \o Acts("E", 0)
+ScheduleOf(p) ==
+  LET RuleIdx(kind) == SelectSeq([i \in 1..Len(p.rules) |-> i], LAMBDA i : p.rules[i].kind = kind)
+      Acts(kind, el) == [j \in 1..Len(RuleIdx(kind)) |-> [kind |-> kind, ri |-> RuleIdx(kind)[j], el |-> el]]
+  IN Acts("B", 0) \o Acts("BF", 0)
+     \o FlattenSeq([e \in 1..p.n |-> Acts("P", e)])
+     \o Acts("EF", 0) \o Acts("E", 0)
 
 InitFor(p) ==
   /\ prog = p
-  /\ sched = Schedule
+  /\ sched = ScheduleOf(p)
   /\ si = 1
   /\ ctl = <<>>
   /\ frames = << [name |-> "<root>", vars |-> <<>>] >>
@@ -172,7 +179,8 @@ ExecShow ==
   /\ Idle /\ TopStmt("show")
   /\ Say(<<"v", Top.s.n, ValueOfName(Top.s.n)>>) /\ ctl' = Pop
   /\ open' = (open \/ Captures(Top.s.n))
-  /\ UNCHANGED <<prog, sched, si, frames, sig, retval, conds, trues, outcome>>
+  /\ frames' = Touch(frames, <<[k |-> "var", n |-> Top.s.n]>>)
+  /\ UNCHANGED <<prog, sched, si, sig, retval, conds, trues, outcome>>
 
 Raise(s) == sig' = s
 
@@ -188,7 +196,8 @@ ExecReturn ==
        ELSE IF AtomFaults(e) THEN /\ Raise("fault") /\ UNCHANGED <<retval, open>>
        ELSE /\ retval' = AtomValue(e) /\ Raise("return") /\ open' = (open \/ AtomOpen(e))
   /\ ctl' = Pop
-  /\ UNCHANGED <<prog, sched, si, frames, out, conds, trues, outcome>>
+  /\ frames' = IF Top.s.e.k = "var" THEN Touch(frames, <<Top.s.e>>) ELSE frames
+  /\ UNCHANGED <<prog, sched, si, out, conds, trues, outcome>>
 
 \* a statement whose evaluation fails (division by zero, ...): C11
 ExecFault ==
@@ -312,7 +321,7 @@ DoCall(f, body, bp, args, dst, rest) ==
   THEN /\ Raise("fault") /\ ctl' = rest /\ UNCHANGED <<frames, open>>
   ELSE IF Depth + 1 > CallLimit
   THEN /\ Raise("fault") /\ ctl' = rest /\ UNCHANGED <<frames, open>>
-  ELSE /\ frames' = PushFrame("fn", BindParams(f, args))
+  ELSE /\ frames' = <<[name |-> "fn", vars |-> BindParams(f, args)]>> \o Touch(frames, args)
        /\ ctl' = PushOn([t |-> "stmt", s |-> body, p |-> bp],
                         PushOn([t |-> "callk", dst |-> dst], rest))
        /\ open' = (open \/ \E i \in 1..Len(args) : AtomOpen(args[i]) \/ AtomValue(args[i]) = Unset)
@@ -334,14 +343,14 @@ ExecSet ==
             \* pop the frame, assign
             IF AtomFaults(e.subj) \/ Depth + 1 > CallLimit
             THEN /\ Raise("fault") /\ ctl' = Pop /\ UNCHANGED <<frames, open, retval>>
-            ELSE /\ frames' = PushFrame("<match>", [x \in {e.bind} |-> AtomValue(e.subj)])
+            ELSE /\ frames' = <<[name |-> "<match>", vars |-> [x \in {e.bind} |-> AtomValue(e.subj)]]>> \o Touch(frames, <<e.subj>>)
                  /\ ctl' = PushOn([t |-> "matchk", dst |-> Top.s.n, body |-> e.body], Pop)
                  /\ open' = (open \/ AtomOpen(e.subj))
                  /\ UNCHANGED <<sig, retval>>
        [] OTHER ->
             IF AtomFaults(e)
             THEN /\ Raise("fault") /\ ctl' = Pop /\ UNCHANGED <<frames, open, retval>>
-            ELSE /\ frames' = Assigned(frames, Top.s.n, AtomValue(e))
+            ELSE /\ frames' = Assigned(Touch(frames, <<e>>), Top.s.n, AtomValue(e))
                  /\ open' = (open \/ AtomOpen(e) \/ Captures(Top.s.n))
                  /\ ctl' = Pop /\ UNCHANGED <<sig, retval>>
   /\ UNCHANGED <<prog, sched, si, out, conds, trues, outcome>>
@@ -369,7 +378,7 @@ ExecMatchStmt ==
   /\ Idle /\ TopStmt("matchstmt")
   /\ IF AtomFaults(Top.s.subj) \/ Depth + 1 > CallLimit
      THEN /\ Raise("fault") /\ ctl' = Pop /\ UNCHANGED <<frames, open>>
-     ELSE /\ frames' = PushFrame("<match>", [x \in {Top.s.bind} |-> AtomValue(Top.s.subj)])
+     ELSE /\ frames' = <<[name |-> "<match>", vars |-> [x \in {Top.s.bind} |-> AtomValue(Top.s.subj)]]>> \o Touch(frames, <<Top.s.subj>>)
           /\ ctl' = PushOn([t |-> "stmt", s |-> Top.s.b, p |-> Append(Top.p, 1)],
                            PushOn([t |-> "matchk", dst |-> "", body |-> [k |-> "none"]], Pop))
           /\ open' = (open \/ AtomOpen(Top.s.subj))
@@ -383,7 +392,7 @@ MatchLeave ==
   /\ IF sig = "none" /\ Top.dst # ""
      THEN IF AtomFaults(Top.body)
           THEN /\ frames' = Tail(frames) /\ sig' = "fault" /\ UNCHANGED open
-          ELSE /\ frames' = Assigned(Tail(frames), Top.dst, AtomValue(Top.body))
+          ELSE /\ frames' = Assigned(Tail(Touch(frames, <<Top.body>>)), Top.dst, AtomValue(Top.body))
                /\ open' = (open \/ AtomOpen(Top.body)) /\ UNCHANGED sig
      ELSE /\ frames' = Tail(frames) /\ UNCHANGED <<sig, open>>
   /\ ctl' = Pop
